@@ -30,6 +30,7 @@ func c19ops() []c19op {
 		for j := 0; j < 3; j++ {
 			ops = append(ops, c19op{"ms", m, "@" + strconv.Itoa(j)})
 		}
+		ops = append(ops, c19op{"ms", m, "+" + strconv.Itoa(m)}) // a generated-looking name one ahead of member m's counter
 		ops = append(ops, c19op{"gs", m, ""}, c19op{"dup", m, ""}, c19op{"clone", m, ""})
 	}
 	return ops
@@ -80,7 +81,13 @@ func c19run(c *engine.Ctx, ops []c19op, hist []int, record bool) (string, bool) 
 			}
 		case "ms":
 			name := o.name
-			if name[0] == '@' {
+			if name[0] == '+' {
+				j, _ := strconv.Atoi(name[1:])
+				if j >= len(fam) {
+					return "", false
+				}
+				name = "g" + strconv.Itoa(fam[j].VerifNextSymbol()+1)
+			} else if name[0] == '@' {
 				j, _ := strconv.Atoi(name[1:])
 				if j >= len(fam) {
 					return "", false
